@@ -155,3 +155,71 @@ func VerifC24Inbound() {
 	}
 	vReach("end")
 }
+
+// VerifC24AfterResume: a connection that resumes a session starts with no alias bindings of its own: whatever
+// the old connection had bound (topics of delivered QoS 0 messages, of messages still in flight), every PUBLISH
+// written on the new connection after the resend carries its topic or an alias bound earlier on THIS connection.
+func VerifC24AfterResume() {
+	s, _ := vNewServer(nil)
+	tam := uint16(1 + vChoose(2))
+	cpk := packets.Packet{ProtocolVersion: 5, Connect: packets.ConnectParams{ClientIdentifier: "c1", Keepalive: 60}, Properties: packets.Properties{ReceiveMaximum: 8, TopicAliasMaximum: tam}}
+	c := vConn()
+	cl := s.NewClient(c, "t1", "c1", false)
+	cl.ParseConnect("t1", cpk)
+	s.Clients.Add(cl)
+	sub := packets.Subscription{Filter: "#", Qos: 1}
+	s.Topics.Subscribe("c1", sub)
+	cl.State.Subscriptions.Add("#", sub)
+	topics := []string{"x", "y"}
+	// old connection: two deliveries, each QoS 0 or 1 on x or y (a QoS 1 one stays unacknowledged)
+	inflight := false
+	for i := 0; i < 2; i++ {
+		q := byte(vChoose(2))
+		if q == 1 {
+			inflight = true
+		}
+		s.publishToSubscribers(packets.Packet{FixedHeader: packets.FixedHeader{Type: packets.Publish, Qos: q}, TopicName: topics[vChoose(2)], Payload: []byte{byte(1 + i)}, Origin: "pub"})
+		vFlush(cl)
+	}
+	cl.Stop(nil)
+	c2 := vConn()
+	cpk2 := cpk
+	cpk2.Properties.TopicAliasMaximum = uint16(1 + vChoose(2)) // the new connection's own maximum
+	cl2 := s.NewClient(c2, "t1", "c1", false)
+	cl2.ParseConnect("t1", cpk2)
+	present := s.inheritClientSession(cpk2, cl2)
+	s.Clients.Add(cl2)
+	vAssert("session-present", present)
+	_ = cl2.ResendInflightMessages(true)
+	vFlush(cl2)
+	resent := len(vParseWire(vConnWritten(c2), 5).Pkts)
+	_ = inflight
+	// new traffic on both topics
+	for i := 0; i < 2; i++ {
+		s.publishToSubscribers(packets.Packet{FixedHeader: packets.FixedHeader{Type: packets.Publish, Qos: 0}, TopicName: topics[i], Payload: []byte{byte(9 + i)}, Origin: "pub"})
+		vFlush(cl2)
+	}
+	w := vParseWire(vConnWritten(c2), 5)
+	bound := map[uint16]string{}
+	for i, p := range w.Pkts {
+		if p.Type != packets.Publish {
+			continue
+		}
+		if p.HasAlias {
+			if i < resent {
+				// recorded class: a resent message is written as it was stored, with the old connection's alias
+				vAssert("kf-resent-message-keeps-the-old-connections-alias", p.Alias >= 1 && p.Alias <= cpk2.Properties.TopicAliasMaximum)
+			}
+			vAssert("alias-within-the-new-connections-maximum", p.Alias >= 1 && p.Alias <= cpk2.Properties.TopicAliasMaximum)
+		}
+		if p.Topic == "" {
+			_, ok := bound[p.Alias]
+			if i >= resent {
+				vAssert("publish-after-resume-resolvable-on-the-new-connection", p.HasAlias && ok)
+			}
+		} else if p.HasAlias {
+			bound[p.Alias] = p.Topic
+		}
+	}
+	vReach("end")
+}
